@@ -9,7 +9,8 @@ Decided:
          (default body, adapt) come after the writes of the fields they read;
   R09.b  format table: every format of MIME_SUPPORT_MAP has a to_<fmt> method; DEFAULT_MIME is a key; in
          adapt() body and Content-Type come from the same (format, mimetype) pair on both branches (the
-         fallback for an unsupported type -- KeyError handler, ``not in`` branch or ``.get() is None`` branch --
+         fallback for an unsupported type -- KeyError handler, ``not in`` branch, ``.get() is None`` branch, or ``.get(key, D)``
+         with D a private marker object / a constant no format of the table equals and the branch that tells D --
          is a pair of the table); render_error and default_render_error negotiate over the same table and adapt
          the error to the winner;
   R09.c  escaping: to_html / to_xml interpolate only the result of to_escaped_dict(), in which every
@@ -34,7 +35,8 @@ Also decided (necessary conditions found clause by clause):
          is one well-formed XML element (xml.etree on a constant of the source).
 Declined: well-formedness of produced bytes, Accept negotiation inside werkzeug, JSON parseability.
 
-Constructs are located by role: values are followed through single-assignment locals (``local_value``), through
+Constructs are located by role: values are followed through single-assignment locals (``local_value``; also a local that is
+encoded in place, ``t = V`` / ``if not isinstance(t, bytes): t = t.encode(cs, ..)``, which stands for the encoded form of V), through
 straight-line helper functions the loader could not inline (``call_result_expr``, ``value_leaves``), through
 ``**local_dict`` (``call_keywords``), loops over literal tables and comprehension / loop spellings.  A template is
 constant when it folds from literals and module constants (``fold_in_function``: a template generated from a constant
